@@ -408,6 +408,11 @@ func (x *executor) doCall(ti, ci int, ctx *callCtx) {
 				for k, v := range call.Inputs {
 					in[k] = v.Tensor()
 				}
+				// (the Model is used the way every other Model of a world and every reference Model is: with the harness's
+				// operator getter installed - a tree may legitimately take another code path when Model.GetOperator has
+				// been reassigned, and like must be compared with like)
+				lctx := &callCtx{}
+				m.GetOperator = x.wrapGetter(m.GetOperator, func() *callCtx { return lctx })
 				var out gonnx.Tensors
 				k2, e2 := guardRun(func() (err error) { out, err = m.Run(in); return })
 				res.Kind, res.Err = k2, e2
